@@ -31,7 +31,8 @@ EXPLANATION = ("Lean theorems (all programs of the modelled fragment, unbounded 
                "of the VariableMap operations and their guards in setVarIdPass1 extracted from the source and compared fail-closed with "
                "the reading the model encodes (T:setvarid-shape); clang -ast-dump=json as oracle for the specification; thorough: ids of "
                "cppcheck --dump. Level is 'other' because the property quantifies over all programs clang accepts: calls / overloads, "
-               "struct members, static members, namespaces, using, lambdas have NO model and no theorem; they are only sampled (link "
+               "struct members, static members, namespaces, using, lambdas have NO model and no theorem (except the per-class member "
+               "table of setVarIdPass2 for members used in out-of-line member functions: Model/ClassVars.lean, classvars_refines); they are only sampled (link "
                "probes: Token::function / Token::variable after the SymbolDatabase vs g++ -fsyntax-only sizeof probes), which exposed "
                "the findings F8c-F8g. Not even sampled: templates, typedef names, structured bindings, inheritance, ADL, default "
                "arguments in ranking, setVarIdPass2 member functions defined outside the class.")
